@@ -120,6 +120,15 @@ theorem ident_iff_not_key (w : List Char) :
     two kinds and the order of the arms is irrelevant). -/
 theorem kwTable_functional : (kwTable.map (·.1)).Nodup := by decide +kernel
 
+/-- the four spellings whose kind is not named after them -/
+def kwAliases : List (String × Kind) :=
+  [("FUNCTION", .Func), ("PROCEDURE", .Proc), ("TRUE", .BooleanTrue), ("FALSE", .BooleanFalse)]
+
+/-- **each keyword gets its own kind**: every key of the table is the upper-cased name of the
+    kind it is mapped to (`"ENDIF" ↦ EndIf`, …), apart from the four aliases above. -/
+theorem kwTable_kinds_named :
+    kwTable.all (fun p => asciiUpper p.2.name == p.1 || kwAliases.contains p) = true := by decide +kernel
+
 /-- **words are classified by the table**: a token that starts at a word-start character is the
     maximal run of word characters there, and its kind is the table's answer for its upper-cased
     spelling; in particular it is `Identifier` iff that spelling is not a key. -/
